@@ -99,6 +99,7 @@ type Invariant struct {
 	Props  []string
 	Src    string
 	Where  string
+	History bool // two-state: old() refers to the pre-state of a call
 }
 
 type GhostVar struct {
@@ -198,7 +199,7 @@ func stripComment(s string) string {
 	return s
 }
 
-var kwRe = regexp.MustCompile(`^\s*(group|func|extern|slot|requires|ensures|modifies|invariant|loop|ghostinit|ghost|pure|lemma|axiom|const|global|assert|mode|maypanic|noinv|use|callslot|trusted|bounded|pkg|end)\b`)
+var kwRe = regexp.MustCompile(`^\s*(group|func|extern|slot|requires|ensures|modifies|invariant|history|loop|ghostinit|ghost|pure|lemma|axiom|const|global|assert|mode|maypanic|noinv|use|callslot|trusted|bounded|pkg|end)\b`)
 
 var labelRe = regexp.MustCompile(`^\s*([A-Za-z_][A-Za-z0-9_]*)\s*:\s*(.*)$`)
 var propsRe = regexp.MustCompile(`^\s*\[([A-Z0-9, ]+)\]\s*(.*)$`)
@@ -584,7 +585,7 @@ func (c *Contracts) LoadFile(path string) error {
 			c.LemmaOrder = append(c.LemmaOrder, name)
 			curLemma = lm
 			cur = nil
-		case "invariant":
+		case "invariant", "history":
 			// invariant [props] name (p *parser): expr
 			props, r := splitProps(rest)
 			if props == nil {
@@ -605,7 +606,7 @@ func (c *Contracts) LoadFile(path string) error {
 			if err != nil {
 				return fail(l, "%v", err)
 			}
-			c.Invs = append(c.Invs, &Invariant{Name: name, Type: bt[1], Binder: bt[0], Expr: e, Props: props, Src: r, Where: l.where})
+			c.Invs = append(c.Invs, &Invariant{Name: name, Type: bt[1], Binder: bt[0], Expr: e, Props: props, Src: r, Where: l.where, History: kw == "history"})
 		case "const":
 			props, r := splitProps(rest)
 			if props == nil {
